@@ -333,6 +333,12 @@ def classify_pipeline(job, res, coq):
     for m in res.get("modules", []):
         tops = [p for p in m.get("classes", [])]
         names, cnames = [p["name"] for p in tops], [p["class_name"] for p in tops]
+        # names imported into the module share its name space (the resolver aliases only equal slugs)
+        for row in m.get("imports", []):
+            for it in row["items"]:
+                if not it.get("alias"):
+                    names.append(it["name"])
+                    cnames.append(it["import_class"])
         if len(set(cnames)) != len(cnames):
             coq.ask("dupclasses", (res["id"], m["module"]), (conv, names, cnames))
         for q, p in _walk_plans(tops):
@@ -513,6 +519,7 @@ def pipeline_oracle(ck: Check):
         ("json", {"s.json": '{"a\\"b": {"x": 1}}'}, {}), ("xsd", {"s.xsd": W_XSD_BYTES}, {}),
         ("xsd", {"s.xsd": W_XSD_F13}, {}), ("xsd", {"s.xsd": W_XSD_F16}, {}), ("xsd", {"s.xsd": W_XSD_F20}, {}),
         ("xsd", {"s.xsd": W_XSD_F14}, {"generic_collections": True}),
+        ("xml", {"await0.xml": W_XML_F12}, {"wrapper_fields": True, "frozen": True, "slots": True}),
         ("xsd", {"one.xsd": W_XSD_CLUSTER, "two.xsd": W_XSD_OTHER}, {}),
         ("xsd", {"one.xsd": W_XSD_CLUSTER, "two.xsd": W_XSD_OTHER}, {"structure_style": "namespaces"}),
         ("xsd", {"one.xsd": W_XSD_CLUSTER, "two.xsd": W_XSD_OTHER}, {"structure_style": "clusters"}),
@@ -582,6 +589,7 @@ W_XSD_F14 = _xsd(_ct("Sequence", ["x"]) + '<xs:complexType name="T"><xs:sequence
                  '<xs:element name="s" type="Sequence"/></xs:sequence></xs:complexType>')
 
 
+W_XML_F12 = '<values><True ForwardRef="-١"><_1></_1><_1 values="" AB_a_b="A">mixed <_1><True True="\'"> </True></_1> tail</_1><_1><values>mixed <values></values> tail</values><_1 True="-.5" _1="class"> </_1><values> </values></_1><values><_1><_1></_1><True>2001-01-01</True></_1><True>true</True></values></True><True>2001-01-01</True></values>'
 _CT = '<xs:complexType name="%s"><xs:sequence><xs:element name="p" type="xs:string"/></xs:sequence></xs:complexType>'
 W_XSD_CLUSTER = ('<xs:schema xmlns:xs="http://www.w3.org/2001/XMLSchema" targetNamespace="urn:x" xmlns="urn:x" elementFormDefault="qualified">'
                  + _CT % "a" + _CT % "A" + _CT % "a_1" + '<xs:element name="root"><xs:complexType><xs:sequence><xs:element name="x" type="a"/>'
